@@ -17,7 +17,7 @@ import (
 // TxViolations concern the spend graph / amounts / scripts (C04).
 var TxViolations = []string{"missing_txid", "alias8", "vout_oob", "dup_in_block", "dup_in_tx", "spent_earlier",
 	"later_output", "own_coinbase", "immature", "out_toolarge", "in_below_out", "cb_overclaim", "sigops",
-	"bip68_height", "bip68_time", "bad_script"}
+	"bip68_height", "bip68_time", "bad_script", "wit_stripped"}
 
 // BlockViolations concern header, structure and commitments (C05).
 var BlockViolations = []string{"high_hash", "bits", "time_mtp", "time_future", "version", "no_coinbase", "two_coinbase",
@@ -81,6 +81,26 @@ func (v *violCtx) pre() {
 			}
 			c.rawTx(tx)
 			v.effective = true
+		}
+	case "wit_stripped":
+		// a valid spend of a witness output that the mempool knows in full arrives in the block WITHOUT its
+		// witness data: same txid, other wtxid, and its script no longer verifies
+		for i, x := range c.list {
+			if needSW, _ := s.B.NeedsWitness(x.coin.Script); !needSW {
+				continue
+			}
+			c.list = append(c.list[:i:i], c.list[i+1:]...)
+			tx := v.spendTx(x, true, x.coin.Value)
+			c.rawTx(tx, false) // (signs the pending inputs)
+			if !tx.HasWitness() {
+				break
+			}
+			c.poolTxs = append(c.poolTxs, tx.Copy())
+			for j := range tx.In {
+				tx.In[j].Witness = nil
+			}
+			v.effective = true
+			break
 		}
 	case "vout_oob":
 		if x, ok := c.take(arg); ok {
